@@ -99,7 +99,8 @@ pub fn ref_gv(v: &RefVoice, stream: usize, label_text: &str) -> Result<Option<Ga
 pub fn dur_speed1(mean: f64) -> (usize, bool) {
     let d = round_half_away(mean).max(1.0) as usize;
     let t = tie_distance(mean);
-    (d, t != 0.0 && t < 1e-9 && mean > 0.4)
+    // (only a mean within a few ulps of the tie is ambiguous: it may come out of a weighted sum)
+    (d, t != 0.0 && t < 8.0 * f64::EPSILON * mean.abs().max(1.0) && mean > 0.4)
 }
 
 /// total-length law for speed s: max(round(F1/s), nstates); returns (value, ambiguous).
